@@ -1,0 +1,18 @@
+// SPDX-FileCopyrightText: 2026 The Pion community <https://pion.ly>
+// SPDX-License-Identifier: MIT
+
+//go:build verif
+
+package cc
+
+// Machine-checked contracts (comment-only; read by /verif/govc, never compiled into a normal build).
+//
+// Frame-only contracts (no postcondition is assumed of these functions by their callers beyond "returns"):
+//@ func (*FeedbackAdapter).OnTransportCCFeedback
+//@   modifies *
+//@
+//@ func (*FeedbackAdapter).OnRFC8888Feedback
+//@   modifies *
+//@
+//@ func (*FeedbackAdapter).OnSent
+//@   modifies *
